@@ -96,8 +96,26 @@ impl<'a> Cx<'a> {
             BinOp::BitXor(_) | BinOp::BitXorAssign(_) => "xor",
             BinOp::BitAnd(_) | BinOp::BitAndAssign(_) => "and",
             BinOp::BitOr(_) | BinOp::BitOrAssign(_) => "or",
+            BinOp::Div(_) | BinOp::Rem(_) if l.ty == LT::F64 => "f64",
             other => return self.un(format!("binary operator `{}` not modelled", toks(other))),
         };
+        if l.ty == LT::F64 {
+            let f = match op {
+                BinOp::Add(_) => "Rs.f64Add",
+                BinOp::Sub(_) => "Rs.f64Sub",
+                BinOp::Mul(_) => "Rs.f64Mul",
+                BinOp::Div(_) => "Rs.f64Div",
+                BinOp::Rem(_) => "Rs.f64Rem",
+                other => return self.un(format!("operator `{}` on f64 not modelled", toks(other))),
+            };
+            return Ok(Tx { pre, term: format!("({} {} {})", f, l.term, r.term), ty: LT::F64 });
+        }
+        match (&l.ty, opname) {
+            (LT::I("i64"), "and") => return Ok(Tx { pre, term: format!("(Rs.i64And {} {})", l.term, r.term), ty: l.ty.clone() }),
+            (LT::I("i64"), "or") => return Ok(Tx { pre, term: format!("(Rs.i64Or {} {})", l.term, r.term), ty: l.ty.clone() }),
+            (LT::I("i64"), "xor") => return Ok(Tx { pre, term: format!("(Rs.i64Xor {} {})", l.term, r.term), ty: l.ty.clone() }),
+            _ => {}
+        }
         match (&l.ty, opname) {
             (LT::I(t), "add") | (LT::I(t), "sub") | (LT::I(t), "mul") => {
                 let v = self.fresh("t");
@@ -128,7 +146,9 @@ impl<'a> Cx<'a> {
             (LT::BV(_), LT::BV(w)) => format!("({}.setWidth {})", x.term, w),
             (LT::BV(_), LT::I(t)) => format!("(Rs.intOfBv .{} {})", t, x.term),
             (LT::F64, LT::I("isize")) | (LT::F64, LT::I("i64")) => format!("(Rs.f64ToIsize {})", x.term),
-            (LT::I("isize"), LT::F64) | (LT::I("i64"), LT::F64) => format!("(Rs.isizeToF64 {})", x.term),
+            (LT::I("isize"), LT::F64) => format!("(Rs.isizeToF64 {})", x.term),
+            (LT::I("i64"), LT::F64) => format!("(Rs.i64ToF64 {})", x.term),
+            (LT::F64, LT::BV(32)) => format!("(Rs.f64ToU32 {})", x.term),
             (LT::I("usize"), LT::F64) => format!("(Rs.usizeToF64 {})", x.term),
             (LT::Enum(n), LT::I(_)) => format!("(Fns.{}.discr {})", n, x.term),
             (LT::Enum(n), LT::BV(w)) => format!("(Rs.bvOfInt {} (Fns.{}.discr {}))", w, n, x.term),
@@ -238,6 +258,7 @@ impl<'a> Cx<'a> {
                     match &x.ty {
                         LT::Bool => Ok(Tx { pre: x.pre, term: format!("(!{})", x.term), ty: LT::Bool }),
                         LT::BV(_) => Ok(Tx { pre: x.pre, term: format!("(~~~{})", x.term), ty: x.ty.clone() }),
+                        LT::I("i64") => Ok(Tx { pre: x.pre, term: format!("(Rs.i64Not {})", x.term), ty: x.ty.clone() }),
                         t => self.un(format!("`!` on {:?} not modelled", t)),
                     }
                 }
@@ -250,6 +271,7 @@ impl<'a> Cx<'a> {
                     }
                     let x = self.expr(&u.expr, want)?;
                     match x.ty.clone() {
+                        LT::F64 => Ok(Tx { pre: x.pre, term: format!("(Rs.f64Neg {})", x.term), ty: LT::F64 }),
                         LT::I(t) => {
                             let v = self.fresh("t");
                             let mut pre = x.pre;
@@ -537,6 +559,13 @@ impl<'a> Cx<'a> {
                 let ty = LT::Opt(Box::new(x.ty.clone()));
                 Ok(Tx { pre: x.pre, term: format!("(some {})", x.term), ty })
             }
+            ("Value::Boolean", 1) => {
+                let x = self.expr(args[0], Some(&LT::Bool))?;
+                if x.ty != LT::Bool {
+                    return self.un("Value::Boolean of a non-bool");
+                }
+                Ok(Tx { pre: x.pre, term: format!("(Rs.Value.Boolean {})", x.term), ty: LT::Value })
+            }
             ("Value::Number", 1) => {
                 let x = self.expr(args[0], Some(&LT::F64))?;
                 if x.ty != LT::F64 {
@@ -621,6 +650,19 @@ impl<'a> Cx<'a> {
                 };
                 let f = if name == "wrapping_shl" { "Rs.wshl" } else { "Rs.wshr" };
                 Ok(Tx { pre: recv.pre, term: format!("({} {} {})", f, recv.term, n), ty: recv.ty })
+            }
+            ("checked_shl", 1, LT::I("i64")) | ("checked_shr", 1, LT::I("i64")) => {
+                let a = self.expr(args[0], Some(&LT::BV(32)))?;
+                if a.ty != LT::BV(32) {
+                    return self.un("checked shift by something other than a u32");
+                }
+                let f = if name == "checked_shl" { "Rs.checkedShl64" } else { "Rs.checkedShr64" };
+                let mut pre = recv.pre;
+                pre.extend(a.pre);
+                Ok(Tx { pre, term: format!("({} {} {})", f, recv.term, a.term), ty: LT::Opt(Box::new(LT::I("i64"))) })
+            }
+            ("unwrap_or_default", 0, LT::Opt(t)) if matches!(*t, LT::I(_)) => {
+                Ok(Tx { pre: recv.pre, term: format!("(({}).getD 0)", recv.term), ty: *t })
             }
             ("to_ne_bytes", 0, LT::BV(16)) => Ok(Tx {
                 pre: recv.pre,
